@@ -43,6 +43,7 @@ type c02Case struct {
 
 type c02Failure struct {
 	kind   string // panic | crash | stack-overflow | timeout | deadlock | memory | nondeterministic
+	sig    string // recursion cycle of a stack overflow
 	detail string
 	src    []byte
 	origin string
@@ -185,7 +186,8 @@ func runC02(c *Cfg) {
 // c02RunCase runs one input: `runs` times in one worker and once in another process, and
 // compares all digests.
 func c02RunCase(pool *c02Pool, cs *c02Case, cpuMs int) (*c02Failure, string) {
-	rq := &c02Req{ID: cs.id, Src: cs.src, Runs: cs.runs, CPUms: cpuMs}
+	// the budget is per pipeline run-pair: a request of 6 or 8 runs gets proportionally more
+	rq := &c02Req{ID: cs.id, Src: cs.src, Runs: cs.runs, CPUms: cpuMs * max(1, cs.runs/2)}
 	o := pool.Ask(rq)
 	fail := func(kind, detail string) *c02Failure {
 		return &c02Failure{kind: kind, detail: detail, src: cs.src, origin: cs.origin + " [" + cs.kind + "]"}
@@ -202,7 +204,9 @@ func c02RunCase(pool *c02Pool, cs *c02Case, cpuMs int) (*c02Failure, string) {
 		o.Kind = ""
 	}
 	if o.Kind != "" {
-		return fail(o.Kind, o.Detail), "died"
+		f := fail(o.Kind, o.Detail)
+		f.sig = o.Sig
+		return f, "died"
 	}
 	rs := o.Resp
 	if rs.Panic != "" {
@@ -323,7 +327,7 @@ func c02RunCLI(c *Cfg, sample []*c02Case) []*c02Failure {
 						// reports a genuine timeout
 						c.Count("cli/wall-timeout")
 					case code != 0 && code != 1 || c02GoTrace.MatchString(se):
-						f = &c02Failure{kind: "cli-crash", detail: fmt.Sprintf("cue %s: exit %d: %s", strings.Join(args, " "), code, c02FirstLines(se, 10)), src: cs.src, origin: cs.origin + " [" + cs.kind + "]"}
+						f = &c02Failure{kind: "cli-crash", sig: c02RecursionSig(se), detail: fmt.Sprintf("cue %s: exit %d: %s", strings.Join(args, " "), code, c02FirstLines(se, 10)), src: cs.src, origin: cs.origin + " [" + cs.kind + "]"}
 					default:
 						code2, so2, se2, to2 := c02CLIOnce(dir, args, timeout)
 						if !to2 && (code2 != code || so2 != so || se2 != se) {
@@ -486,14 +490,64 @@ func c02Classify(f *c02Failure, min []byte) string {
 		site = regexp.MustCompile(`[^A-Za-z0-9_.:()*\[\]-]+`).ReplaceAllString(site, "_")
 		return "panic/" + c02Trunc(site, 140)
 	default:
+		if f.sig != "" {
+			// a runaway recursion is classed by its cycle of functions (the root cause)
+			return "runaway-recursion/" + f.sig
+		}
 		if c02HasBoundWithRequired(min) {
 			return "struct-embeds-ordered-bound-and-required-field"
 		}
 		if c02NaNLiteral.Match(min) {
 			return "nan-literal-exponent-overflow"
 		}
+		if c02CloseOfEnclosing(min) {
+			return "close-builtin-of-enclosing-field"
+		}
 		return f.kind
 	}
+}
+
+// c02CloseOfEnclosing: a call close(X) (possibly close(X) & …) where X names a field that
+// encloses the call (a structural cycle through the close builtin).
+func c02CloseOfEnclosing(src []byte) bool {
+	f, _ := parser.ParseFile("in.cue", src)
+	if f == nil {
+		return false
+	}
+	found := false
+	var stack []string
+	var walk func(n ast.Node)
+	walk = func(n ast.Node) {
+		ast.Walk(n, func(n ast.Node) bool {
+			switch x := n.(type) {
+			case *ast.Field:
+				name := ""
+				switch l := x.Label.(type) {
+				case *ast.Ident:
+					name = l.Name
+				case *ast.BasicLit:
+					name = strings.Trim(l.Value, "\"")
+				}
+				stack = append(stack, name)
+				walk(x.Value)
+				stack = stack[:len(stack)-1]
+				return false
+			case *ast.CallExpr:
+				if id, ok := x.Fun.(*ast.Ident); ok && id.Name == "close" && len(x.Args) == 1 {
+					if a, ok := x.Args[0].(*ast.Ident); ok {
+						for _, s := range stack {
+							if s == a.Name {
+								found = true
+							}
+						}
+					}
+				}
+			}
+			return true
+		}, nil)
+	}
+	walk(f)
+	return found
 }
 
 // c02NaNLiteral: a number literal whose exponent has 19 or more digits (|exponent| >= 2^63
@@ -588,7 +642,7 @@ func c02Report(c *Cfg, pool *c02Pool, failures []*c02Failure, cpuMs int) {
 		groups[k] = append(groups[k], f)
 	}
 	sort.Strings(order)
-	perGroup := c.Pick(2, 3)
+	perGroup := c.Pick(2, 6)
 	budget := time.Duration(c.Pick(20, 90)) * time.Second
 	for _, k := range order {
 		fs := groups[k]
@@ -599,6 +653,13 @@ func c02Report(c *Cfg, pool *c02Pool, failures []*c02Failure, cpuMs int) {
 				minSrc = c02Minimise(c, pool, f, cpuMs, budget)
 			} else {
 				minSrc = f.src
+			}
+			if f.sig == "" && c02Resource[f.kind] && i < perGroup {
+				// is the time/memory overrun a runaway recursion? a small stack tells, and names it
+				o := pool.AskFresh(&c02Req{Src: minSrc, Runs: 1, CPUms: cpuMs}, "C02_MAXSTACK=33554432")
+				if o.Kind == "stack-overflow" {
+					f.sig = o.Sig
+				}
 			}
 			class := c02Classify(f, minSrc)
 			c.Count("failure/" + class)
